@@ -364,6 +364,8 @@ cJSON *set_or_call(const struct peer *p, const cJSON *request, enum type what)
 	if (unlikely(e->peer->send_message(e->peer, rendered_message,
 	                                   strlen(rendered_message)) != 0)) {
 		response = create_error_response_from_request(p, request, INTERNAL_ERROR, "reason", "could not send routing information");
+		/* the caller gets its answer now, there must not be a second one when the timeout expires */
+		cancel_routing_request(e->peer, routing_request);
 	}
 
 	cjet_free(rendered_message);
